@@ -140,7 +140,7 @@ def prepare_xfer(obs, x):
             full = payload(7777 + x.idx, start) + x.data
             x.src = SeekableSource(w, x.label, full, start=start, read_caps=t.get('src_caps'))
         else:
-            x.src = NonSeekableSource(w, x.label, x.data)
+            x.src = NonSeekableSource(w, x.label, x.data, read_caps=t.get('src_caps'))
     elif x.kind == 'download':
         w.s3.objects[(BUCKET, x.key)] = x.data
         dst = t.get('dst', 'path')
